@@ -39,6 +39,14 @@ RunVerdict(r) ==
     \cup V(~r.refused /\ r.report.have /\ ~cfg.is_shell => Pairs(r.report.env) = st.env, "C16_environment_edits")
     \cup V(~r.refused /\ r.report.have /\ ~cfg.is_shell => r.report.cwd = (IF st.cwd = "" THEN pcwd ELSE st.cwd), "C16_cwd")
     \cup V(~r.refused /\ cfg.is_shell => r.execargs = expArgs, "C16_shell_gets_one_single_argument")
+    \* communicate(): stdout is captured when it was piped -- or when neither output was configured at all --, stderr when
+    \* it was piped; a stream that is not captured is reported as absent (and stays where it was configured to go)
+    \cup (IF r.term = "communicate" /\ ~r.refused /\ r.streams[1]
+          THEN LET wantOut == st.sout = "pipe" \/ (st.sout = "unset" /\ st.serr = "unset")
+                   wantErr == st.serr = "pipe"
+               IN IF r.streams[2] = wantOut /\ r.streams[3] = wantErr THEN {}
+                  ELSE {"C16_streams_as_configured", "C02_absent_iff_not_piped"}
+          ELSE {})
 
 TResult ==
   /\ IsEvent("bresult")
